@@ -119,8 +119,12 @@ func c13ParseCond(s string) client.Condition {
 
 func c13ParseAct(s string) client.Action {
 	f := strings.Split(s, ",")
-	return client.Action{ID: string(unhx(f[0])), Action: string(unhx(f[1])), NodeID: string(unhx(f[2])), PointType: string(unhx(f[3])),
+	a := client.Action{ID: string(unhx(f[0])), Action: string(unhx(f[1])), NodeID: string(unhx(f[2])), PointType: string(unhx(f[3])),
 		Value: fbits(f[4]), ValueText: string(unhx(f[5])), Active: f[6] == "1", Error: string(unhx(f[7]))}
+	if len(f) > 8 {
+		a.PointFilePath = string(unhx(f[8]))
+	}
+	return a
 }
 
 func c13ParseRule(s string) client.Rule {
@@ -260,8 +264,12 @@ func c13CondStr(c client.Condition) string {
 }
 
 func c13ActStr(a client.Action) string {
-	return strings.Join([]string{hxs(a.ID), hxs(a.Action), hxs(a.NodeID), hxs(a.PointType), fmt.Sprint(math.Float64bits(a.Value)), hxs(a.ValueText),
-		b01(a.Active), hxs(a.Error)}, ",")
+	f := []string{hxs(a.ID), hxs(a.Action), hxs(a.NodeID), hxs(a.PointType), fmt.Sprint(math.Float64bits(a.Value)), hxs(a.ValueText),
+		b01(a.Active), hxs(a.Error)}
+	if a.PointFilePath != "" || a.Action == data.PointValuePlayAudio {
+		f = append(f, hxs(a.PointFilePath))
+	}
+	return strings.Join(f, ",")
 }
 
 func c13Gen(r *rand.Rand, n int, tier string) []string {
@@ -327,6 +335,15 @@ func c13Gen(r *rand.Rand, n int, tier string) []string {
 					PointType: pick(r, []string{"value", "state", "value", ""}), Value: pick(r, vals), ValueText: pick(r, texts), Active: r.Intn(2) == 0}
 				if r.Intn(8) == 0 {
 					a.Action = pick(r, []string{"", "bogus"})
+				}
+				if r.Intn(10) == 0 {
+					// play-audio action whose file does not exist (an existing file would start an external player):
+					// an action error like any other, and the rule goes on
+					a.Action = data.PointValuePlayAudio
+					a.PointFilePath = pick(r, []string{"/nonexistent/alarm.wav", "", "/nonexistent/b.wav"})
+					if r.Intn(3) == 0 {
+						a.Error = "open " + a.PointFilePath + ": no such file or directory"
+					}
 				}
 				if r.Intn(8) == 0 {
 					a.Error = pick(r, []string{"old error", "Error, node action nodeID must be set"})
